@@ -25,6 +25,7 @@ type Program struct {
 	Overlay  map[string][]byte
 	mu       sync.Mutex
 	methCache map[string]*ssa.Function
+	metas     sync.Map
 }
 
 var interpretedPkgs = map[string]bool{
@@ -121,6 +122,55 @@ func Load(repoDir string, harnessDir string, rtTemplate string) (*Program, error
 		}
 	}
 	return P, nil
+}
+
+// fnMeta caches per-function facts used on every call.
+type fnMeta struct {
+	name      string
+	intr      intrinsic
+	skipInit  bool
+	interpret bool
+	idx       map[ssa.Value]int
+	nvals     int
+}
+
+func (p *Program) meta(fn *ssa.Function) *fnMeta {
+	if m, ok := p.metas.Load(fn); ok {
+		return m.(*fnMeta)
+	}
+	m := &fnMeta{name: fn.String()}
+	oname := m.name
+	if fn.Origin() != nil {
+		oname = fn.Origin().String()
+	}
+	if h, ok := intrinsics[oname]; ok {
+		m.intr = h
+	} else if strings.HasPrefix(fn.Name(), "vp") && fn.Pkg != nil {
+		if h, ok := harnessIntrinsics[fn.Name()]; ok {
+			m.intr = h
+		}
+	}
+	path := fnPkgPath(fn)
+	if fn.Name() == "init" && fn.Synthetic != "" && (!p.interpretedPkg(path) || path == RepoModule+"/raftpb") {
+		m.skipInit = true
+	}
+	m.interpret = fn.Blocks != nil && (path == "" || p.allowedPkg(path))
+	if fn.Blocks != nil {
+		m.idx = map[ssa.Value]int{}
+		for _, prm := range fn.Params {
+			m.idx[prm] = len(m.idx)
+		}
+		for _, b := range fn.Blocks {
+			for _, ins := range b.Instrs {
+				if v, ok := ins.(ssa.Value); ok {
+					m.idx[v] = len(m.idx)
+				}
+			}
+		}
+		m.nvals = len(m.idx)
+	}
+	actual, _ := p.metas.LoadOrStore(fn, m)
+	return actual.(*fnMeta)
 }
 
 func (p *Program) lookupMethod(t types.Type, meth *types.Func) *ssa.Function {
